@@ -108,6 +108,10 @@ def geometry_job(job):
             # K1: derivative of the code's IK lengths along spatial twists of the top plate
             for _k in range(3):
                 V = np.array([rng.uniform(-1, 1) for _ in range(6)])
+                # a spatial twist turns the plate about the WORLD origin: metres away from it the finite-difference steps
+                # (1e-3, 5e-4) would sweep centimetres and their truncation error (~h^4 |p|^5) would reach the 1e-6 bound;
+                # the law is linear in the twist, so the twist is scaled down instead of the steps
+                V = V / max(1.0, float(np.linalg.norm(T[:3, 3])) / 2.0)
 
                 def lens_at(s):
                     Ts = rf.se3_exp(V * s) @ T
